@@ -74,7 +74,7 @@ def gen(rs, tier, index):
     else:
         n = rng.choice([4, 6, 10, 16]) if tier == 'quick' else rng.choice([6, 12, 24, 40])
         d = netlist.gen_design(rng, n, comb, hier_depth=rng.choice([0, 1, 2]), feedback=rng.choice([0.2, 0.4, 0.6]),
-                               seq_kinds=seqk, seq_frac=rng.choice([0.5, 0.7, 0.85]), maxw=40)
+                               seq_kinds=seqk, seq_frac=rng.choice([0.5, 0.7, 0.85]), maxw=40, big=rng.random() < 0.03)
     if not abort and not bulk and rng.random() < 0.05:
         netlist.deepen(d, rng, rng.choice([12, 16, 17, 24, 33]))      # one group nested far deeper than usual
     stopblk = None
@@ -110,6 +110,8 @@ def gen(rs, tier, index):
             vec[-1] = 0
         prev = vec
         n = sr.choice([1, 1, 2, 3, 5, 8, 20])
+        if si == 1 and fr.random() < 0.02:
+            n = fr.choice([300, 600, 1100, 2500])         # one long burst: thousands of edges in a few clk() calls
         # partition of n into clk() calls
         parts = []
         left = n
